@@ -50,9 +50,9 @@ def check(ctx):
     # mechanisms this property rests on (see shared.py): a change there is reported here as well
     from . import shared as _sh
 
-    ctx.run(_sh.gaf_reader)
-    ctx.run(_sh.tag_parser)
-    ctx.run(_sh.cli_layer, "gaftools.cli.stat")
+    ctx.run_shared(_sh.gaf_reader)
+    ctx.run_shared(_sh.tag_parser)
+    ctx.run_shared(_sh.cli_layer, "gaftools.cli.stat")
 
 
 # ---------------------------------------------------------------------------------------------
